@@ -243,7 +243,7 @@ def size(v):
     raise Fail("size of %r" % (v,))
 
 
-def checksig(sigv, keyv, ctx, log):
+def checksig(sigv, keyv, ctx, log, in_multisig=False):
     """-> bool ; raises Fail where consensus fails the script"""
     if isinstance(sigv, int) and sigv == 0:
         return False
@@ -255,7 +255,12 @@ def checksig(sigv, keyv, ctx, log):
         return True
     if ctx == "tap":
         raise Fail("invalid non-empty signature in tapscript")
+    if getattr(_CUR_TX[0], "nullfail", False) and not in_multisig:
+        raise Fail("NULLFAIL")
     return False
+
+
+_CUR_TX = [None]
 
 
 class Tx(object):
@@ -300,6 +305,7 @@ def execute(items, stack, tx, ctx, want_stack=False):
     alt = []
     log = []
     cond = []     # execution condition stack
+    _CUR_TX[0] = tx
 
     def pop():
         if not st:
@@ -427,13 +433,15 @@ def execute(items, stack, tx, ctx, want_stack=False):
                 for s_ in sigs:
                     matched = False
                     while ik < len(keys) and not matched:
-                        matched = checksig(s_, keys[ik], ctx, tmp)
+                        matched = checksig(s_, keys[ik], ctx, tmp, in_multisig=True)
                         ik += 1
                     if not matched:
                         good = False
                         break
                 if good:
                     log.extend(tmp)
+                elif getattr(tx, "nullfail", False) and any(not (isinstance(x, int) and x == 0) for x in sigs):
+                    raise Fail("NULLFAIL (BIP-146): a failing CHECKMULTISIG with a non-empty signature")
                 if op == "CHECKMULTISIGVERIFY":
                     if not good:
                         raise Fail("CHECKMULTISIGVERIFY")
